@@ -320,10 +320,14 @@ Definition has_live_child_master (s : sys) (m : nat) : bool :=
   existsb (fun ip => let '(i, p) := ip in is_master p && p_alive p && Nat.eqb (p_parent p) m && negb (Nat.eqb i m))
           (combine (seq 0 (length s)) s).
 
+(* a re-executed master ignores USR2 while the master that forked it is still there *)
+Definition parent_master_alive (s : sys) (m : nat) (mp : proc) : bool :=
+  negb (Nat.eqb (p_parent mp) m) && live_master s (p_parent mp).
+
 Inductive sevent :=
 | SKillWorker (i : nat)            (* worker i dies (any reason); its master replaces it *)
 | SHup (m : nat) (k : cfg)         (* reload: configuration re-read (k), new workers, old ones stopped *)
-| SUsr2 (m : nat)                  (* upgrade: fork + exec of a new master, which boots its own workers *)
+| SUsr2 (m : nat) (k : cfg)        (* upgrade: fork + exec of a new master, which reads the configuration (k) and boots its own workers *)
 | STtin (m : nat)
 | STtou (m : nat)
 | STerm (m : nat).                 (* master m and its workers exit *)
@@ -349,13 +353,13 @@ Definition step (s : sys) (e : sevent) : sys :=
                  else s
     | None => s
     end
-  | SUsr2 m =>
+  | SUsr2 m k =>
     match nth_error s m with
-    | Some mp => if live_master s m && negb (has_live_child_master s m)
+    | Some mp => if live_master s m && (negb (has_live_child_master s m) && negb (parent_master_alive s m mp))
                  then let m' := length s in
-                      spawn_n (c_workers (p_cfg mp))
+                      spawn_n (c_workers k)
                         (s ++ [{| p_role := Master; p_alive := true; p_parent := m; p_creds := p_creds mp;
-                                  p_cfg := p_cfg mp; p_log := [] |}]) m'
+                                  p_cfg := k; p_log := [] |}]) m'
                  else s
     | None => s
     end
@@ -447,14 +451,19 @@ Definition obs_socket (t : dbtab) (m : creds) (uid gid : Z) (ig : bool) (umask :
     end
   end.
 
-(* the process table after a history: every live process in creation order *)
-Definition enc_proc (ip : nat * proc) : list Z :=
+(* the process table after a history: every live master in creation order with its live workers in
+   creation order; per worker its credentials and those its first application code ran with *)
+Fixpoint first_app (l : list wevent) : option creds :=
+  match l with [] => None | EvApp c :: _ => Some c | _ :: t => first_app t end.
+Definition enc_worker (p : proc) : list Z :=
+  enc_creds (p_creds p) ++ enc_opt enc_creds (first_app (p_log p)).
+Definition enc_master (s : sys) (ip : nat * proc) : list Z :=
   let '(i, p) := ip in
-  if p_alive p
-  then [Z.of_nat i; if is_master p then 0 else 1; Z.of_nat (p_parent p)] ++ enc_creds (p_creds p)
-       ++ enc_list enc_wevent (filter (fun e => match e with EvApp _ => true | _ => false end) (p_log p))
+  if is_master p && p_alive p
+  then enc_creds (p_creds p) ++ enc_list enc_worker (filter (live_worker_of i) s)
   else [].
 Definition obs_sys (s : sys) : list Z :=
-  Z.of_nat (length (filter p_alive s)) :: flat_map enc_proc (combine (seq 0 (length s)) s).
+  Z.of_nat (length (filter (fun p => is_master p && p_alive p) s))
+  :: flat_map (enc_master s) (combine (seq 0 (length s)) s).
 Definition obs_history (t : dbtab) (c0 : creds) (k : cfg) (evs : list sevent) : list Z :=
   obs_sys (run (db_of_tab t) (boot (db_of_tab t) c0 k) evs).
